@@ -396,6 +396,9 @@ func (fc *funcContext) translateStmt(stmt ast.Stmt, label *types.Label) {
 			fc.Printf("%s", fc.translateAssign(lhs, s.Rhs[0], s.Tok == token.DEFINE))
 
 		case len(s.Lhs) > 1 && len(s.Rhs) == 1:
+			// As below: the operands on the left are evaluated before the call (or
+			// receive, assertion, map lookup) on the right.
+			fc.evalLhsOperands(s.Lhs)
 			tupleVar := fc.newLocalVariable("_tuple")
 			fc.Printf("%s = %s;", tupleVar, fc.translateExpr(s.Rhs[0]))
 			tuple := fc.typeOf(s.Rhs[0]).(*types.Tuple)
@@ -410,24 +413,7 @@ func (fc *funcContext) translateStmt(stmt ast.Stmt, label *types.Label) {
 			// pointer indirections on the left are evaluated before any assignment is
 			// carried out (and before the right-hand sides), so 'i, a[i] = 1, x'
 			// stores into a[old i].
-			for i, lhs := range s.Lhs {
-				switch l := astutil.RemoveParens(lhs).(type) {
-				case *ast.IndexExpr:
-					if fc.pkgCtx.Types[l.Index].Value != nil {
-						continue // constant index
-					}
-					indexVar := fc.newLocalVariable("_index")
-					fc.Printf("%s", fc.translateAssign(fc.newIdent(indexVar, fc.typeOf(l.Index)), l.Index, true))
-					s.Lhs[i] = fc.setType(&ast.IndexExpr{X: l.X, Lbrack: l.Lbrack, Index: fc.newIdent(indexVar, fc.typeOf(l.Index)), Rbrack: l.Rbrack}, fc.typeOf(l))
-				case *ast.StarExpr:
-					if _, isIdent := l.X.(*ast.Ident); isIdent {
-						continue
-					}
-					ptrVar := fc.newLocalVariable("_ptr")
-					fc.Printf("%s", fc.translateAssign(fc.newIdent(ptrVar, fc.typeOf(l.X)), l.X, true))
-					s.Lhs[i] = fc.setType(&ast.StarExpr{Star: l.Star, X: fc.newIdent(ptrVar, fc.typeOf(l.X))}, fc.typeOf(l))
-				}
-			}
+			fc.evalLhsOperands(s.Lhs)
 			tmpVars := make([]string, len(s.Rhs))
 			for i, rhs := range s.Rhs {
 				tmpVars[i] = fc.newLocalVariable("_tmp")
@@ -801,6 +787,50 @@ func (fc *funcContext) translateAssign(lhs, rhs ast.Expr, define bool) string {
 		}
 	default:
 		panic(fmt.Sprintf("Unhandled lhs type: %T\n", l))
+	}
+}
+
+// evalLhsOperands carries out phase one of a tuple assignment: the operands of
+// index expressions and pointer indirections on the left are evaluated into
+// temporaries, in order, before the right-hand side is evaluated and before any
+// assignment is carried out. The expressions in lhss are rewritten to use the
+// temporaries.
+func (fc *funcContext) evalLhsOperands(lhss []ast.Expr) {
+	for i, lhs := range lhss {
+		switch l := astutil.RemoveParens(lhs).(type) {
+		case *ast.IndexExpr:
+			if fc.pkgCtx.Types[l.Index].Value != nil {
+				continue // constant index
+			}
+			indexVar := fc.newLocalVariable("_index")
+			fc.Printf("%s", fc.translateAssign(fc.newIdent(indexVar, fc.typeOf(l.Index)), l.Index, true))
+			lhss[i] = fc.setType(&ast.IndexExpr{X: l.X, Lbrack: l.Lbrack, Index: fc.newIdent(indexVar, fc.typeOf(l.Index)), Rbrack: l.Rbrack}, fc.typeOf(l))
+		case *ast.StarExpr:
+			if _, isIdent := l.X.(*ast.Ident); isIdent {
+				continue
+			}
+			ptrVar := fc.newLocalVariable("_ptr")
+			fc.Printf("%s", fc.translateAssign(fc.newIdent(ptrVar, fc.typeOf(l.X)), l.X, true))
+			lhss[i] = fc.setType(&ast.StarExpr{Star: l.Star, X: fc.newIdent(ptrVar, fc.typeOf(l.X))}, fc.typeOf(l))
+		case *ast.SelectorExpr:
+			// p.f with a pointer p is an implicit pointer indirection.
+			if _, isIdent := l.X.(*ast.Ident); isIdent {
+				continue
+			}
+			if _, isPtr := fc.typeOf(l.X).Underlying().(*types.Pointer); !isPtr {
+				continue
+			}
+			if sel, ok := fc.selectionOf(l); !ok || sel.Kind() != types.FieldVal {
+				continue
+			}
+			ptrVar := fc.newLocalVariable("_ptr")
+			fc.Printf("%s", fc.translateAssign(fc.newIdent(ptrVar, fc.typeOf(l.X)), l.X, true))
+			newSel := &ast.SelectorExpr{X: fc.newIdent(ptrVar, fc.typeOf(l.X)), Sel: l.Sel}
+			if sel, ok := fc.selectionOf(l); ok {
+				fc.pkgCtx.additionalSelections[newSel] = sel
+			}
+			lhss[i] = fc.setType(newSel, fc.typeOf(l))
+		}
 	}
 }
 
